@@ -1133,7 +1133,10 @@ def MPD(phi: np.ndarray) -> float:
     w = np.abs(phi)
     num = phi.real * V[1, 1] - phi.imag * V[0, 1]
     den = np.sqrt(V[0, 1] ** 2 + V[1, 1] ** 2) * np.abs(phi)
-    MPD = np.sum(w * np.arccos(np.abs(num / den))) / np.sum(w)
+    # components of zero amplitude carry no phase (and no weight); rounding may push the cosine above 1
+    nz = w > 0
+    cosang = np.clip(np.abs(num[nz] / den[nz]), 0.0, 1.0)
+    MPD = np.sum(w[nz] * np.arccos(cosang)) / np.sum(w[nz])
     return MPD
 
 
